@@ -62,13 +62,11 @@ func (w *World) Exec(st *Step) (viol *Violation) {
 		return w.execCommit(st)
 	case "dropcache":
 		w.Storage.DropCache()
-		// Eviction re-materialises slabs from registers on the next read, so handles of nested
-		// containers obtained before it belong to an old lineage (DESIGN 3.3); root handles survive.
-		for _, cid := range w.sortedHandleCIDs() {
-			if c := w.Model.Conts[cid]; c == nil || c.Parent != nil {
-				delete(w.Handles, cid)
-			}
-		}
+		// Eviction re-materialises slabs from registers on the next read.  Every handle obtained before it
+		// belongs to the old lineage: nested handles alias evicted slab objects, and even a root handle may
+		// carry a parent callback into an evicted parent (a detached child).  No handle survives an eviction;
+		// roots are re-opened by id, children re-obtained through their parent (DESIGN 3.3).
+		w.Handles = map[int]any{}
 		w.Stats.Inc("sched.drop-cache")
 		return nil
 	case "reopen":
@@ -113,7 +111,7 @@ func (w *World) execNew(st *Step) *Violation {
 		c.Seed = m.Seed()
 		w.Model.register(c)
 		w.Handles[c.CID] = m
-		w.result("new map %s", c.VID)
+		w.result("new map")
 		return nil
 	}
 	a, err := atree.NewArray(w.Storage, addr, *st.T)
@@ -123,7 +121,7 @@ func (w *World) execNew(st *Step) *Violation {
 	c := &MCont{CID: st.CID, Type: *st.T, Owner: st.Owner, VID: RegIDOf(a.SlabID()), Dig: DigesterSpec{Kind: "default"}, Volatile: st.Owner == 0}
 	w.Model.register(c)
 	w.Handles[c.CID] = a
-	w.result("new arr %s", c.VID)
+	w.result("new arr")
 	return nil
 }
 
@@ -484,7 +482,8 @@ func (w *World) execPopAll(st *Step) *Violation {
 	var viol *Violation
 	i := 0
 	if c.IsMap {
-		order := canonicalOrder(c)
+		// judged against the seed the map reports now (a re-materialised compact map may have adopted the shared seed)
+		order := w.mapOrder(c, h.(*atree.OrderedMap))
 		err := h.(*atree.OrderedMap).PopIterate(func(ks, vs atree.Storable) {
 			if viol != nil {
 				return
